@@ -81,11 +81,29 @@ impl Pass {
 pub struct Fail {
     pub sig: String,
     pub msg: String,
+    /// top-level keys to merge into the recorded case so that the replay file pins exactly what
+    /// failed (e.g. the inner evaluation index of a family case, or input bytes that are not a pure
+    /// function of the case)
+    #[serde(default, skip_serializing_if = "Option::is_none")]
+    pub patch: Option<serde_json::Value>,
 }
 
 impl Fail {
     pub fn new(sig: impl Into<String>, msg: impl Into<String>) -> Fail {
-        Fail { sig: sig.into(), msg: msg.into() }
+        Fail { sig: sig.into(), msg: msg.into(), patch: None }
+    }
+    pub fn with_patch(mut self, patch: serde_json::Value) -> Fail {
+        self.patch = Some(patch);
+        self
+    }
+}
+
+/// Merge a failure's patch into a case (top-level object keys).
+pub fn apply_patch(case: &mut serde_json::Value, patch: &Option<serde_json::Value>) {
+    if let (serde_json::Value::Object(c), Some(serde_json::Value::Object(p))) = (case, patch) {
+        for (k, v) in p {
+            c.insert(k.clone(), v.clone());
+        }
     }
 }
 
@@ -111,6 +129,11 @@ impl Fails {
         let sig = sig.into();
         if self.0.len() < 16 && !self.0.iter().any(|f| f.sig == sig) {
             self.0.push(Fail::new(sig, msg));
+        }
+    }
+    pub fn push_fail(&mut self, f: Fail) {
+        if self.0.len() < 16 && !self.0.iter().any(|x| x.sig == f.sig) {
+            self.0.push(f);
         }
     }
     pub fn is_empty(&self) -> bool {
